@@ -170,6 +170,15 @@ func VerifC08_CloneSet() {
 		p := intstr.FromInt(verifrt.IntRange("cs.partition", 0, 100))
 		newObj.Spec.UpdateStrategy.Partition = &p
 	}
+	// the CloneSet may already be in a release (continuous release, rollback, new rollout-id): a release change is
+	// held back all the same
+	if verifrt.Bool("cs.alreadyInProgress") {
+		if newObj.Annotations == nil {
+			newObj.Annotations = map[string]string{}
+		}
+		oldObj.Annotations[util.InRolloutProgressingAnnotation] = `{"rolloutName":"ro-a"}`
+		newObj.Annotations[util.InRolloutProgressingAnnotation] = `{"rolloutName":"ro-a"}`
+	}
 	before := newObj.DeepCopy()
 	rs := c08MakeRollouts("apps.kruise.io/v1alpha1", "CloneSet")
 	h := &WorkloadHandler{Client: rs.client()}
